@@ -389,3 +389,21 @@ contract(module="coco.cm3toppm", qualname="convert", tag="C17", also=["C16", "C1
                   dict(id="length", post="n == 3*320*(192*pages)", props=["C16", "C17", "C18"]),
                   dict(id="pixels", post=CM3_PX.format(K="160*(192*pages)"), props=["C16", "C17"])],
          raises=[])
+
+CM3_RANGES = ["len(linbuf) == 160", "len(buff1) == 20", "forall(0, 160, lambda j: 0 <= linbuf[j] and linbuf[j] <= 255)",
+              "forall(0, 20, lambda j: 0 <= buff1[j] and buff1[j] <= 255)",
+              "forall(0, len(buff2), lambda j: 0 <= buff2[j] and buff2[j] <= 255)"]
+contract(module="coco.cm3toppm", qualname="convert", tag="C19",
+         params=CM3_PARAMS, requires=[], check_termination=True,
+         ghost_entry="pages = bitat(inp[0], 7) + 1\ntl = 0",
+         loops={
+             0: dict(ghost_vars=["tl"], inv=["n == 960*tl"] + CM3_RANGES),
+             1: dict(ghost_vars=["tl"], ghost_body_end="tl = tl + 1", inv=["n == 960*tl"] + CM3_RANGES),
+             3: dict(inv=["len(buff2) == kk", "forall(0, len(buff2), lambda j: 0 <= buff2[j] and buff2[j] <= 255)"]),
+             4: dict(inv=["x == kk", "n == 960*tl + 6*kk", "0 <= bitu and bitu <= 7", "0 <= bity and bity <= 7", "u >= 0", "y >= 0"] + CM3_RANGES),
+             5: dict(inv=[], decreases="L - pos"),
+         },
+         ensures=[dict(id="header", post="hdr == fmt('P6\\n320 {}\\n255\\n', 192*pages)"),
+                  dict(id="complete", post="n == 3*320*(192*pages)",
+                       known=[dict(finding="KF-C19-CM3-line-count", when="tl != 192*pages")])],
+         raises=[dict(id="loud", exc="*", allowed="True")])
